@@ -9,6 +9,8 @@
 //   {"end": id}
 // If the process dies, the op in progress is the one after the last event.
 #include <cstdlib>
+#include <filesystem>
+#include <set>
 #include <ctime>
 #include <cxxabi.h>
 #include <signal.h>
@@ -156,6 +158,7 @@ int main(int argc, char** argv)
     // Two library slots: ops act on slot 0 unless they carry "lib": 1 (a second library open in the same process at the
     // same time); "observe_all_b" is observe_all on slot 1 under another name, so that judges can tell them apart.
     State slots[2];
+    std::set<std::string> case_dirs;
     while (std::getline(in, line))
     {
         if (line.empty()) continue;
@@ -199,6 +202,20 @@ int main(int argc, char** argv)
             try
             {
                 substitute(op, vars);
+                if (op.contains("dir") && op["dir"].is_string())
+                {
+                    // "@W/name": a directory under the runner's scratch area, made on first use and removed when the case ends
+                    auto d = op["dir"].get<std::string>();
+                    if (d.rfind("@W/", 0) == 0)
+                    {
+                        const char* w = getenv("VERIF_WORKDIR");
+                        std::string real = std::string(w ? w : "/dev/shm") + "/" + d.substr(3);
+                        std::error_code ec;
+                        std::filesystem::create_directories(real, ec);
+                        case_dirs.insert(real);
+                        op["dir"] = real;
+                    }
+                }
                 json ret;
                 bool ok = dispatch_api(st, name, op, ret) || dispatch_codec(st, name, op, ret) ||
                           dispatch_table(st, name, op, ret);
@@ -241,6 +258,12 @@ int main(int argc, char** argv)
         }
         slots[0].reset();
         slots[1].reset();
+        for (auto& d : case_dirs)
+        {
+            std::error_code ec;
+            std::filesystem::remove_all(d, ec);
+        }
+        case_dirs.clear();
         emit({{"end", c["id"]}});
     }
     return 0;
